@@ -309,10 +309,13 @@ def export_3MF(mesh, batch_size=4096, compression=zipfile.ZIP_DEFLATED, compress
     # model ids
     models = []
 
-    def model_id(x):
+    def model_id(x, kind="node"):
+        # a node may have the same name as a geometry: they are different objects
+        x = (kind, x)
         if x not in models:
             models.append(x)
         return str(models.index(x) + 1)
+
 
     # 3mf archive dict {path: BytesIO}
     file_obj = io.BytesIO()
@@ -337,7 +340,7 @@ def export_3MF(mesh, batch_size=4096, compression=zipfile.ZIP_DEFLATED, compress
                     for i, (name, m) in enumerate(geometry.items()):
                         # attributes for object
                         attribs = {
-                            "id": model_id(name),
+                            "id": model_id(name, "geometry"),
                             "name": name,
                             "type": "model",
                             "p:UUID": str(uuid.uuid4()),
@@ -393,7 +396,11 @@ def export_3MF(mesh, batch_size=4096, compression=zipfile.ZIP_DEFLATED, compress
                                         xf.write(
                                             etree.Element(
                                                 "component",
-                                                {"objectid": model_id(data["geometry"])},
+                                                {
+                                                    "objectid": model_id(
+                                                        data["geometry"], "geometry"
+                                                    )
+                                                },
                                             )
                                         )
                                 for next, data in graph[node].items():
@@ -408,7 +415,9 @@ def export_3MF(mesh, batch_size=4096, compression=zipfile.ZIP_DEFLATED, compress
                                             "component",
                                             {
                                                 # only a leaf can be replaced by its mesh
-                                                "objectid": model_id(data["geometry"])
+                                                "objectid": model_id(
+                                                    data["geometry"], "geometry"
+                                                )
                                                 if "geometry" in data
                                                 and len(graph[next]) == 0
                                                 else model_id(next),
@@ -429,7 +438,7 @@ def export_3MF(mesh, batch_size=4096, compression=zipfile.ZIP_DEFLATED, compress
                         if "geometry" in data and len(graph[node]) == 0:
                             # a leaf node is not written as an object of
                             # its own so reference the mesh it instances
-                            objectid = model_id(data["geometry"])
+                            objectid = model_id(data["geometry"], "geometry")
                         else:
                             objectid = model_id(node)
                         xf.write(
